@@ -151,6 +151,8 @@ def run_pipeline(case, data, tmpdir, script_override=None, decisions=None, strat
             logger.setLevel(logging.INFO)
         if case.get("fault_at_read") is not None:
             reader.vf_fault_at = case["fault_at_read"]
+        if case.get("close_fault"):
+            H._faulty_close(reader)
         tw = W.TokenizerWorker(src, observers, logger=logger, **kw)
         tw.vf_name = "tokenizer"
         holder["tw"] = tw
@@ -161,7 +163,13 @@ def run_pipeline(case, data, tmpdir, script_override=None, decisions=None, strat
                 holder["step_at_stop"] = sched.steps
 
         sched.on_put = on_put
-        tw.start_all()
+        if case.get("start_order") == "tokenizer-first":
+            # started by hand, tokenizer before its observers (start_all() does it the other way round)
+            tw.start()
+            for o in observers:
+                o.start()
+        else:
+            tw.start_all()
         if script_override is not None:
             script_override(sched, holder)
         elif case["stop"] is not None:
@@ -176,7 +184,8 @@ def run_pipeline(case, data, tmpdir, script_override=None, decisions=None, strat
 
     with contextlib.redirect_stdout(stdout):
         rng = random.Random(case["sched_seed"] ^ 0x5EED)
-        sched, info = H.run_scheduled(script, strategy, step_cap=40000, line_p=case.get("line_p", 0.0), line_rng=rng)
+        sched, info = H.run_scheduled(script, strategy, step_cap=max(40000, 12 * len(case["v"]) + 5000), line_p=case.get("line_p", 0.0), line_rng=rng,
+                                      wall_cap_s=max(60.0, len(case["v"]) / 50))
     res.sched = sched
     res.info = info
     res.holder = holder
@@ -235,7 +244,7 @@ def verdict_problems(res):
         elif kind == "non-termination":
             out.append(("thread-never-terminates", detail))
     for name, exc in s.thread_exceptions:
-        if "injected source fault" in exc or "injected observer fault" in exc:
+        if "injected source fault" in exc or "injected observer fault" in exc or "injected close fault" in exc:
             continue  # the harness injected this one on purpose
         out.append(("worker-thread-raised:" + name.split(":")[-1].rstrip("0123456789"), {"thread": name, "exception": exc[:300]}))
     if s.aborted is None:
